@@ -8,7 +8,7 @@
    two-run differential of checks/C13.py, not proved. *)
 From RV Require Import Prelude.
 From Coq Require Import String.
-From Ops Require Import InPlace InPlace_proofs InPlace_cases InPlace_oracle.
+From Ops Require Import InPlace InPlace_proofs InPlace_spec InPlace_cases InPlace_oracle.
 Open Scope N_scope.
 
 (* (1) the in-place decision: whenever `can_run_binary_op_in_place(a, b)` holds, the
@@ -33,6 +33,16 @@ Theorem C13_fast_broadcast_sound : forall (A : Type) from to c r (xs : list A),
   lenN xs = prodN from ->
   broadcast_flat from to xs = cycle c (repeat_each r xs).
 Proof. exact @fast_broadcast_sound. Qed.
+
+(* (2') what "broadcast" means in (2), at the level of indices: element [idx] of
+       broadcast_flat is the source element whose index is [idx] with 0 along every broadcast
+       dimension (the definition of numpy.broadcast_to), for an operand of any lower rank *)
+Theorem C13_broadcast_flat_index : forall (A : Type) from to (xs : list A),
+  can_broadcast_to from to = true -> lenN xs = prodN from ->
+  forall idx, valid_idx to idx = true ->
+  nth_error (broadcast_flat from to xs) (N.to_nat (lin to idx))
+  = nth_error xs (N.to_nat (lin (pad_left (List.length to) from) (bsrc (pad_left (List.length to) from) idx))).
+Proof. exact @broadcast_flat_index. Qed.
 
 (* (3) first sentence of the property for the elementwise binary operators: for every
        kernel f, all shapes, all element lists, and any contiguity of either operand in
